@@ -271,6 +271,18 @@ def keepfile(x, p):
     x.out('names', got)
     x.check('exactly the listed names, stripped, comments and blank lines '
             'ignored', got == [b'a#b', b'foo', b'qux'])
+    # the user edits the keep file and minifies again in the same process
+    content2 = b'foo' + nl + b'newname' + nl
+    hx.patch(x, builtins, 'open',
+             lambda name, mode='r', *a, **k: hx.MemStream(content2))
+    try:
+        names2 = F.read_names_file('/w/keep.txt')
+    except Exception as e:
+        x.check('keep file is read a second time', False, info=repr(e))
+        return
+    got2 = sorted(bytes(x.conc(n)) for n in names2)
+    x.check('a second reading gives the names the file holds now',
+            got2 == [b'foo', b'newname'])
 
 
 Q = {'_budget': 300}
